@@ -124,17 +124,21 @@ class Check:
             else:
                 violations.append(o)
         stale = [k for i, k in enumerate(mine) if i not in used]
-        os.makedirs(os.path.join(VERIF, 'out', 'violations'), exist_ok=True)
+        dry = bool(os.environ.get('PLUMPY_SA_NO_EVIDENCE'))
+        if not dry:
+            os.makedirs(os.path.join(VERIF, 'out', 'violations'), exist_ok=True)
         for i, o in enumerate(violations):
             path = os.path.join(VERIF, 'out', 'violations', f'{self.pid}-{i}.json')
-            with open(path, 'w') as fh:
-                json.dump({'property': self.pid, **o.as_dict(), 'key': o.key()}, fh, indent=1)
+            if not dry:
+                with open(path, 'w') as fh:
+                    json.dump({'property': self.pid, **o.as_dict(), 'key': o.key()}, fh, indent=1)
             lines.append(f'VIOLATION property={self.pid} replay={path}')
             lines.append(f'  {o.where} -- {o.rule} [{o.kind}] -- {o.expr} -- {o.why}')
         for k in stale:
             self.info('known-finding-not-reproduced', f"listed finding {k.get('id')} no longer matches any violation "
                                                     f"(fixed or moved): {k.get('construct')} {k.get('rule')}")
-        self.write_evidence(violations)
+        if not dry:
+            self.write_evidence(violations)
         n_ok = sum(1 for o in self.obs if o.ok)
         n_known = sum(1 for o in self.obs if o.verdict == 'KNOWN')
         print(f'[{self.pid}] tier={self.tier} obligations={len(self.obs)} discharged={n_ok} known={n_known} '
